@@ -20,7 +20,6 @@
 package main
 
 import (
-	"bytes"
 	"context"
 	"database/sql"
 	"encoding/hex"
@@ -679,7 +678,10 @@ func (w *world) runHist(run *vh.Run, c histCase) {
 		for len(pending) > 0 {
 			op := pending[0]
 			pending = pending[1:]
-			ob := h.exec(op)
+			var ob stepObs
+			if panicked, pmsg := vh.Guard(func() { ob = h.exec(op) }); panicked {
+				ob = stepObs{Out: "anomaly", Anomaly: "panic while executing the operation: " + pmsg}
+			}
 			h.judge(op, ob)
 			executed = append(executed, op)
 			run.Dist["op:"+op.K]++
@@ -720,14 +722,6 @@ func canonKey(c histCase) string {
 	return sb.String()
 }
 
-func hexs(bs [][]byte) []string {
-	out := make([]string, len(bs))
-	for i, b := range bs {
-		out[i] = hex.EncodeToString(b)
-	}
-	return out
-}
-
 func main() {
 	zerolog.SetGlobalLevel(zerolog.Disabled)
 	// newblock.go prints the block time with fmt.Println on every call
@@ -742,10 +736,8 @@ func main() {
 	w := newWorld(run.Repo)
 	defer w.close()
 	for _, t := range w.srv.Ties() {
-		if t.Kind == "changed" || t.Kind == "missing" || t.Kind == "unimplemented" || t.Kind == "schema-changed" {
-			if relevantTie(t.Name) {
-				run.Tie("pgfake tie: " + t.Kind + " " + t.Name + ": " + t.Detail)
-			}
+		if !t.Informational() && relevantTie(t.Name) {
+			run.Tie("pgfake tie: " + t.String())
 		}
 	}
 	if run.Replay != "" {
@@ -767,9 +759,12 @@ func main() {
 		}
 		run.Replay = ""
 	}
+	// vh seeds splitmix64 with seed*gamma, so the streams of consecutive seeds are one draw
+	// apart; a fork (seeded with a mixed output) gives every seed its own stream
+	rng := run.RNG.Fork()
 	n := run.Scale(400, 8000)
 	for i := 0; i < n; i++ {
-		w.runHist(run, genHist(run.RNG, i))
+		w.runHist(run, genHist(rng, i))
 	}
 }
 
@@ -778,5 +773,3 @@ func relevantTie(name string) bool {
 	return strings.Contains(name, "keyper/database") || strings.Contains(name, "shutterservice") ||
 		strings.Contains(name, "keyper.sql") || strings.Contains(name, "V2_") || strings.Contains(name, "V3_")
 }
-
-var _ = bytes.Compare
